@@ -4,7 +4,6 @@ import "go/types"
 
 type typesPackage = types.Package
 
-
 func cmdReplay(args []string) int   { return 2 }
 func cmdSelftest(args []string) int { return 2 }
 
